@@ -759,6 +759,23 @@ def flushSequence (cfg : Cfg) : Option (Bool × Bool × St) := do
      { flag := decide (2 ∈ s4.fired), timedOut := false, elapsed := 100 }]
   pure (f1, f2, s4)
 
+/-- Stream `batcher_blocking`, case `blslow`: a processor whose single attempt takes arbitrarily long behind
+    `tokio::spawn` (tokio.rs:17-44: `exec` with `tokio::time::sleep` as the wait and the user's `on_batch` awaited in
+    place). `n` items are queued before the receiver starts; it takes them and hands them to the processor; while
+    that attempt is in flight a companion watcher (0) and the flush's own watcher (1) are registered. The attempt
+    concludes with `o` — after however long it takes: NO label carries a duration, which is why the length of the
+    attempt cannot matter — the next hand-off finds the queue empty and notifies both watchers, one after the other.
+    The flush (`tokio::flush` = `oneshotWait`; the blocking ones read their trigger the same way) sees its oneshot
+    sent. Returns the result, the number of items through their final attempt when the companion ran and when the
+    flush's own callback had run, and the final state. -/
+def slowFlush (cfg : Cfg) (n : Nat) (o : Outcome) (timeout : Nat) : Option (Bool × Nat × Nat × St) := do
+  let run := Sched.run (step cfg)
+  let s1 ← run (prefillState cfg .live n) [.rxTake, .rxBegin, .whenFlushed 0, .whenFlushed 1]
+  let s2 ← run s1 [.rxOutcome o, .rxTake, .rxFireFlush]
+  let s3 ← run s2 [.rxFireFlush]
+  let r := oneshotWait timeout (if 1 ∈ s1.fired then .sent else .empty) (if 1 ∈ s3.fired then .received else .elapsed)
+  pure (r, s2.finalised.length, s3.finalised.length, s3)
+
 /-- `sync::blocking_send` (sync.rs:97-140) = `send_or_wait` with the condvar wait. Against a live receiver the
     queue has been taken when the wait returns; against a stalled one the wait lasts until the timeout. -/
 def blockingSendObs (cfg : Cfg) (rx : RxKind) (prefill timeout : Nat) (x : Nat) : TryRes × List (Nat × TryRes) :=
